@@ -16,6 +16,7 @@ STUB_HARNESSES = [
     K('stub_u16_from_be_bytes', 'prelude.stub.u16_from_be_bytes', kind='stub'),
     K('stub_u32_from_be_bytes', 'prelude.stub.u32_i32_from_be_bytes', kind='stub'),
     K('stub_saturating_i32', 'prelude.stub.i32_saturating_and_min', kind='stub'),
+    K('stub_to_be_bytes_inverse', 'prelude.stub.to_be_bytes_reads_back', kind='stub'),
     K('stub_unsigned_abs', 'prelude.stub.i64_unsigned_abs', kind='stub'),
 ]
 
